@@ -9,6 +9,7 @@
 #include <string.h>
 #include <assert.h>
 #include <errno.h>
+#include <limits.h>
 
 #if defined(PARSEC_HAVE_MPI)
 #include <mpi.h>
@@ -352,7 +353,9 @@ int parsec_vpmap_init_from_file(const char *filename)
         if( NULL != (th_arg = strchr(line, ':'))) {
             /* skip the colon and treat the thread number argument */
             th_arg++;
-            nbth = (int) strtod(th_arg, NULL);
+            double nbth_arg = strtod(th_arg, NULL);
+            /* converting a value that does not fit an int is undefined: such a count is invalid, like a non-positive one */
+            nbth = ((nbth_arg >= 1.0) && (nbth_arg <= (double)INT_MAX)) ? (int)nbth_arg : 0;
             if( nbth <= 0 )
                 nbth=1;
 
